@@ -174,6 +174,8 @@ var c06control = [][2]string{
 	{`a = 1
 b = a + 1
 a + b`, `(begin (set a 1) (set b (+ a 1)) (+ a b))`},
+	{`k = 0; s = 0; for k = range v { s += k }; s + k`, `(begin (set k 0) (set s 0) (for [(def q 0) (< q (len v)) (set q (+ q 1))] (set k q) (set s (+ s k))) (+ s k))`},
+	{`k = 0; x = 0; s = 0; for k, x = range v { s += x }; s + k`, `(begin (set k 0) (set x 0) (set s 0) (for [(def q 0) (< q (len v)) (set q (+ q 1))] (set k q) (set x (aget v q)) (set s (+ s x))) (+ s k))`},
 	{`a++; a`, `(begin (set a (+ a 1)) a)`},
 	{`a--; a -= 2; a`, `(begin (set a (- a 1)) (set a (- a 2)) a)`},
 }
@@ -210,7 +212,7 @@ func init() {
 		Level: "exploration",
 		Rule: "every alternating sequence operand (op operand)^n: n=1 over 24 operands x 19 binary operators x 4 spacings; n=2 over 6 operands x 19^2 operators x 16 spacings; n=3 over 3 operands x 11^3 level-representative operators in 2 uniform spacings (thorough: 5 operands, 4 uniform spacings, n=4 over 2 operands x 11^4); " +
 			"postfix ++/--, statement lists with ; / newline / blank separators; the expansion printed by (infixExpand {...}) must equal an independent tokeniser + precedence-climbing parse (R3), and the block's value and effects must equal those of the prefix form; " +
-			"17 go-style for/if/assignment programs x 3 layouts against hand-written prefix programs; distinct_nontrivial = distinct expansions",
+			"19 go-style for/if/assignment programs x 3 layouts against hand-written prefix programs; 6 statements at every offset 0..64 of the text; distinct_nontrivial = distinct expansions",
 		Assumptions: []string{"R3 encodes the binding powers and associativity stated in the property and the documented sign rule for -digit",
 			"texts R3 rejects (two operators in a row ...) are skipped; prefix spelling of selectors, nested blocks and comma is judged by the tree only"},
 		Run: func(c *engine.Ctx) {
@@ -311,6 +313,18 @@ func init() {
 				for st := 0; st < 3; st++ {
 					if c.Mine() {
 						c06controlCase(c, i, st)
+					}
+				}
+			}
+			// the same statement at every offset 0..64 of the text (the lexer looks back at earlier runes through a
+			// fixed-size ring): leading blanks, and a preceding statement of growing length
+			for _, stmt := range []string{"c = a-3", "c = a -3", "c = b+1", "c = v[i-1]", "c = a*-1", "c = a-b-1"} {
+				for pad := 0; pad <= 64; pad++ {
+					if c.Mine() {
+						c06case(c, strings.Repeat(" ", pad)+stmt, "offset")
+					}
+					if c.Mine() {
+						c06case(c, "b = "+strings.Repeat("1", 1+pad%18)+"; "+strings.Repeat(" ", pad/18)+stmt, "offset")
 					}
 				}
 			}
